@@ -8,6 +8,14 @@ directory under /dev/shm and three independent things are decided, each clause w
              (mc/c04_codecs.py) which must see the same mesh                     -> blames mesh.save
   read       the same mesh written by the independent reference writer (several syntactic variants) is
              loaded by mouette and must come back                                -> blames mesh.load
+  read_optional  the reference writer's variants that use an OPTIONAL construct of the format which a conforming
+             reader has to tolerate (OFF face colours as integers / floats, OBJ vertex weight / colour and
+             mtllib/usemtl, medit comment lines + Corners/Ridges/RequiredVertices blocks + region references,
+             geogram [ATTS]-first order + explicit facet_ptr + the adjacency attributes geogram stores, xyz count
+             line / colour columns, STL normals + attribute words + arbitrary header bytes, and for every text
+             format a 'layout' variant: 17-digit numbers with sign / upper-case exponent, tabs, indentation,
+             trailing blanks, CR LF); only a failure that NEEDS the construct is reported here (one that the
+             plain variant of the same mesh shows as well is the read clause's)    -> blames mesh.load
   roundtrip  mouette loads what mouette wrote (reported when the writer was found sound, or when a
              different clause fails than in `write`)                             -> blames mesh.load
   attributes geogram_ascii only: 5 types x arity 1..3 x every container x sparse/dense x value pattern.
@@ -15,6 +23,11 @@ directory under /dev/shm and three independent things are decided, each clause w
              kind that is not in S and that the format can express comes back identical, the kinds in S are absent,
              and the class is the one the remaining content implies; judged on the bytes (-> mesh.save) and on the
              reloaded object (-> mesh.load); only what needs the ignore set is reported here
+  regen      second generation, save -> load -> save -> load: lossless implies idempotent, so m1 = load(save(m)) is a mesh
+             like any other: the file save(m1) must mean m1 to the independent reader and still carry every attribute
+             the independent reader saw in the generation-1 file (geogram: incl. the cell / facet adjacency), and
+             loading it must give m1 back (elements, class, attributes of the raw load); judged only when generation 1
+             passed every clause; also run on every user attribute of the attribute clause
   dim        load(path, dim=k) of the independent writer's file for k in {None,0,1,2,3}: the override only RAISES the
              dimensionality (class = max(k, what the content implies)) and never changes an element -> mesh.load
 
@@ -35,7 +48,10 @@ RULE = ("every mesh of the finite families (all-triples point cloud over an 11-v
         "distinct (mesh, format, switches); non-trivial = the mesh has at least one vertex and the case ran save; "
         "ignore clause: a representative sub-family of every mesh kind x 7 formats x all 8 subsets of ignore_elements "
         "(+ None) x {defaults, complete_edges_from_faces off, export_edges_in_obj off}; dim clause: the same "
-        "sub-family written by the reference writer x 7 formats x dim in {None,0,1,2,3} x edge completion on/off")
+        "sub-family written by the reference writer x 7 formats x dim in {None,0,1,2,3} x edge completion on/off; "
+        "regen clause: the same sub-family x 7 formats x {defaults, complete_edges_from_faces off, obj: export_edges_in_obj "
+        "off}, one case = one (mesh, format, switches) whose first generation passed every clause; read_optional: every "
+        "mesh of the families x every optional-construct variant of the reference writer x edge completion on/off")
 ASSUMPTIONS = [
     "the reference codecs in mc/c04_codecs.py (token-stream parsers and writers written from the public format "
     "descriptions, self-tested against each other and against the repository's tests/data files) are the trusted base",
@@ -59,6 +75,20 @@ ASSUMPTIONS = [
     "dim clause: judged only on files whose plain load (dim=None) is right; the class order is PointCloud < PolyLine "
     "< SurfaceMesh < VolumeMesh; the fingerprint class is the relation of dim to the content (dim<content, "
     "dim==content, dim>content) followed by 'all-formats' when every format exercised in the task fails alike",
+    "read_optional: the optional constructs are the ones the public descriptions of the formats give and real exporters "
+    "write (Geomview OFF colour after the face indices: none, one colormap index, 3 or 4 integers or floats; OBJ 'v x y z "
+    "[w]' / 'v x y z r g b', mtllib / usemtl; medit '#' comment lines, blank lines between blocks, Corners / Ridges / "
+    "RequiredVertices blocks, any integer reference; GeoFile: chunk order free as long as an [ATTR] follows its [ATTS], "
+    "facet_ptr allowed on triangle meshes, corner_adjacent_facet / adjacent_cell attributes; xyz: leading count line, "
+    "6 columns; STL: facet normals, non-zero attribute byte count, arbitrary 80-byte header); constructs the UNCHANGED "
+    "reader is known not to read (OFF '#' comments and header+counts on one line, OBJ relative indices and 'l' records "
+    "with more than two vertices, blank lines inside xyz / tet / geogram / ASCII-STL bodies, medit keyword and count on "
+    "one line) are NOT exercised: they are reported once by hand, not by this check",
+    "regen clause: m1's declared edges are the edges the independent reader sees in the generation-1 file; the "
+    "expectation for generation 2 is computed from the snapshot of m1 by the same rules as for any mesh; attributes "
+    "of the generation-1 file must reappear in the generation-2 file with the same type, arity and values (the file may "
+    "hold more); the attributes of load(file2, raw=True) must include those of load(file1, raw=True) unchanged; STL: "
+    "the whole load/save/load runs in a sacrificial child and the float32 triangle soup of m1 must be reproduced exactly",
     "when the independent reader finds mouette's file unsound the round trip of that same file is not reported a "
     "second time, and when mouette's reader already failed on the reference writer's file of a mesh its round trip "
     "is not reported either (same defect); the other clauses and the other meshes of the format are still checked",
@@ -70,12 +100,14 @@ BOUNDS = {
              "1..3 x 7 containers x sparse/dense x 2 value patterns on 4 host meshes; ignore + dim clauses on the "
              "sub-family {0/1/2-point clouds, graphs n<=3, tri+quad complexes n=4 first listing x <=3 hard-edge variants, "
              "11 specimens, tet complexes n<=5 x 2 orientations, 3 hex specimens}: x 7 formats x 9 ignore sets x 2 (obj: 3) "
-             "switch bases, resp. x 7 formats x 5 dim values x completion on/off",
+             "switch bases, resp. x 7 formats x 5 dim values x completion on/off; regen clause on the same sub-family x 7 "
+             "formats x 2 (obj: 3) switch vectors + every attribute case; reference-writer variants per format: obj 7, "
+             "mesh 4, off 5 (+2-gons), tet 2, xyz 4, geogram_ascii 4, stl 4",
     "thorough": "quick + graphs n=5 (1023); tri+quad complexes n=5 with <=5 faces (2612) x 2 listings x <=3 hard-edge "
                 "variants; every single face rotation / adjacent swap of the n=4 complexes; the 16 tet classes on 6 "
                 "vertices x 2 orientations; holey 3x3 grids; ignore + dim clauses on quick's sub-family + graphs n=4, both "
                 "listings of the n=4 complexes, the n=5 complexes (first listing, no declared edge), tet classes on 6 "
-                "vertices, holey grids",
+                "vertices, holey grids; regen clause on that thorough sub-family",
 }
 
 FORMATS = ["obj", "mesh", "geogram_ascii", "off", "tet", "xyz", "stl"]
@@ -233,6 +265,10 @@ IGN_FLOOR = {"obj": ["faces->edges", "cells->edges", "cells->faces", "faces->poi
              "off": ["faces->points", "faces->faces"], "tet": ["cells->points", "cells->cells"], "xyz": ["faces->points"],
              "stl": ["faces->faces"]}
 DIM_RELATIONS = ["dim<content", "dim==content", "dim>content"]
+# element kinds whose second generation passes every clause on the unchanged tree
+REGEN_FLOOR = {"obj": ["points", "edges", "tri", "quad", "poly", "tet", "hex"], "mesh": ["points", "edges", "tri", "quad", "tet", "hex"],
+               "geogram_ascii": ["points", "edges", "tri", "quad", "poly", "tet"], "off": ["points", "edges", "tri", "tet"],
+               "tet": ["points", "tet", "hex"], "xyz": ["points", "edges", "tri", "tet"], "stl": ["tri", "quad", "tet"]}
 
 
 def tasks(tier):
@@ -251,6 +287,9 @@ def tasks(tier):
         for fmt in FORMATS:
             out.append({"kind": "ign", "tier": tier, "fmt": fmt, "lo": lo, "hi": min(n, lo + CHUNK[tier])})
         out.append({"kind": "dim", "tier": tier, "lo": lo, "hi": min(n, lo + CHUNK[tier])})
+    for lo in range(0, n, 2 * CHUNK[tier]):
+        for fmt in FORMATS:
+            out.append({"kind": "regen", "tier": tier, "fmt": fmt, "lo": lo, "hi": min(n, lo + 2 * CHUNK[tier])})
     return out
 
 
@@ -710,12 +749,10 @@ def run_case(ctx, spec, salt, fmt, sw):
             _case_text(ctx, exp, snap, path, fmt, kinds, sw, small)
 
 
-def _case_text(ctx, exp, snap, path, fmt, kinds, sw, small):
+def _judge_written(rep, fmt, text, exp):
+    """the bytes mouette wrote, parsed by the independent reader, against an expectation
+    -> (reference model or None, list of (clause, kind, detail))"""
     from mc import c04_codecs as K
-    M, rep = ctx.M, ctx.rep
-    with open(path, "r", newline="") as f:
-        text = f.read()
-    # ---------------- write: the independent reader
     wfails = []
     issues = []
     try:
@@ -737,48 +774,62 @@ def _case_text(ctx, exp, snap, path, fmt, kinds, sw, small):
             wfails.append(("faces", "mismatch:faces", _cmp_elems(ref["F"], exp["F"], exp["per_arity"])))
         elif _cmp_edges(ref["E"], exp["file_E"]):
             wfails.append(("edges", "mismatch:edges", _cmp_edges(ref["E"], exp["file_E"])))
-    rep.outcome("write:" + fmt, "+".join(w[0] for w in wfails) if wfails else "same")
-    for w in wfails:
-        _report(ctx, "write", w[0], "mouette.mesh.save", w[1], fmt, kinds, sw, {**small, **w[2], "file": text[:1500]})
-    # ---------------- roundtrip: mouette reads its own file
+    return ref, wfails
+
+
+def _judge_reloaded(M, rep, path, exp):
+    """mouette reads a file back, against an expectation -> ((clause, kind, detail) or None, loaded snapshot or None)"""
     rfail = None
     o = call(_load_snap, M, path)
     rep.transitions += 1
     if not o.ok:
-        rfail = ("loads", exc_kind(o), {"msg": o.msg})
+        return ("loads", exc_kind(o), {"msg": o.msg}), None
+    got = o.value
+    oraw = call(_load_snap, M, path, True)
+    rep.evaluations += 6
+    if _hexes(got["V"]) != _hexes(exp["V"]):
+        rfail = ("vertices", "mismatch:coordinates", _first_diff(_hexes(got["V"]), _hexes(exp["V"])))
+    elif _cmp_elems(got["C"], exp["C"], exp["per_arity"]):
+        rfail = ("cells", "mismatch:cells", _cmp_elems(got["C"], exp["C"], exp["per_arity"]))
+    elif (exp["F"] or not exp["C"]) and _cmp_elems(got["F"], exp["F"], exp["per_arity"]):
+        rfail = ("faces", "mismatch:faces", _cmp_elems(got["F"], exp["F"], exp["per_arity"]))
+    elif _cmp_edges(got["E"], exp["load_E"]):
+        rfail = ("edges", "mismatch:edges", _cmp_edges(got["E"], exp["load_E"]))
+    elif not oraw.ok:
+        rfail = ("loads", exc_kind(oraw), {"msg": oraw.msg, "raw": True})
     else:
-        got = o.value
-        oraw = call(_load_snap, M, path, True)
-        rep.evaluations += 6
-        if _hexes(got["V"]) != _hexes(exp["V"]):
-            rfail = ("vertices", "mismatch:coordinates", _first_diff(_hexes(got["V"]), _hexes(exp["V"])))
-        elif _cmp_elems(got["C"], exp["C"], exp["per_arity"]):
-            rfail = ("cells", "mismatch:cells", _cmp_elems(got["C"], exp["C"], exp["per_arity"]))
-        elif (exp["F"] or not exp["C"]) and _cmp_elems(got["F"], exp["F"], exp["per_arity"]):
-            rfail = ("faces", "mismatch:faces", _cmp_elems(got["F"], exp["F"], exp["per_arity"]))
-        elif _cmp_edges(got["E"], exp["load_E"]):
-            rfail = ("edges", "mismatch:edges", _cmp_edges(got["E"], exp["load_E"]))
-        elif not oraw.ok:
-            rfail = ("loads", exc_kind(oraw), {"msg": oraw.msg, "raw": True})
-        else:
-            raw = oraw.value
-            extra = {}
-            if not exp["edge_capable"] and raw["E"]:
-                extra["edges"] = raw["E"][:8]
-            if not exp["F"] and raw["F"]:
-                extra["faces"] = raw["F"][:8]
-            if not exp["C"] and raw["C"]:
-                extra["cells"] = raw["C"][:8]
-            if extra:
-                rfail = ("absent", "mismatch:inexpressible_kind_present", {"raw_load_has": extra})
-            elif got["cls"] not in exp["cls"]:
-                rfail = ("class", "mismatch:class", {"got": got["cls"], "want": exp["cls"]})
+        raw = oraw.value
+        extra = {}
+        if not exp["edge_capable"] and raw["E"]:
+            extra["edges"] = raw["E"][:8]
+        if not exp["F"] and raw["F"]:
+            extra["faces"] = raw["F"][:8]
+        if not exp["C"] and raw["C"]:
+            extra["cells"] = raw["C"][:8]
+        if extra:
+            rfail = ("absent", "mismatch:inexpressible_kind_present", {"raw_load_has": extra})
+        elif got["cls"] not in exp["cls"]:
+            rfail = ("class", "mismatch:class", {"got": got["cls"], "want": exp["cls"]})
+    return rfail, got
+
+
+def _case_text(ctx, exp, snap, path, fmt, kinds, sw, small):
+    M, rep = ctx.M, ctx.rep
+    with open(path, "r", newline="") as f:
+        text = f.read()
+    # ---------------- write: the independent reader
+    ref, wfails = _judge_written(rep, fmt, text, exp)
+    rep.outcome("write:" + fmt, "+".join(w[0] for w in wfails) if wfails else "same")
+    for w in wfails:
+        _report(ctx, "write", w[0], "mouette.mesh.save", w[1], fmt, kinds, sw, {**small, **w[2], "file": text[:1500]})
+    # ---------------- roundtrip: mouette reads its own file
+    rfail, got = _judge_reloaded(M, rep, path, exp)
     rep.outcome("roundtrip:" + fmt, rfail[0] if rfail else "same")
     # the writer was found unsound -> the round trip of that file says nothing more; the reader already failed on the
     # reference writer's file for this very mesh -> same reader defect, reported there
     if rfail and not wfails and fmt not in ctx.read_fail:
         if rfail[0] == "cells":
-            kinds = _offender(kinds, "cells", o.value["C"], exp["C"], exp["F"])
+            kinds = _offender(kinds, "cells", got["C"], exp["C"], exp["F"])
         _report(ctx, "roundtrip", rfail[0], "mouette.mesh.load", rfail[1], fmt, kinds, sw,
                 {**small, **rfail[2], "file": text[:1500]})
     if not wfails and not rfail:
@@ -859,30 +910,41 @@ def read_phase(ctx, spec, salt, fmt):
     if stl:
         V32 = [[K.f32(c) for c in p] for p in V]
         want = [sorted(_rot_min([tuple(V32[v]) for v in f]) for f in model["F"])]
-        for var, blob in (("binary", K.write_stl_binary([[V32[v] for v in f] for f in model["F"]])),
-                          ("ascii", K.write_stl_ascii([[V32[v] for v in f] for f in model["F"]]).encode())):
+        tris = [[V32[v] for v in f] for f in model["F"]]
+        failed = {}                            # variant -> (clause, kind) of its failure
+        for var, tag in K.STL_VARIANTS:
             if not model["F"]:
                 continue                       # a facet-less STL is covered by the roundtrip phase
             path = ctx.path("stl")
             with open(path, "wb") as f:
-                f.write(blob)
+                f.write(K.stl_blob(tris, var))
             rep.states += 1; rep.traces += 1; rep.transitions += 1
-            def later(result, var=var):
+            def later(result, var=var, tag=tag):
                 fail = _stl_check_load(ctx, result, want, {"F": model["F"]})
                 rep.outcome("read:stl", fail[0] if fail else "same")
                 if fail:
+                    failed[var] = fail[:2]
                     if var == "binary":
                         ctx.read_fail.add("stl")
-                    _violation(rep, f"C04.read.{fail[0]}", "mouette.mesh.load", fail[1], f"stl-{var}:{kinds}",
-                                  {**small, **fail[2], "variant": var})
+                    if tag is None:
+                        _violation(rep, f"C04.read.{fail[0]}", "mouette.mesh.load", fail[1], f"stl-{var}:{kinds}",
+                                   {**small, **fail[2], "variant": var})
+                    elif failed.get(var.split("-")[0]) == fail[:2]:
+                        rep.count("read_optional_same_as_plain")      # the plain binary / ascii file fails alike
+                    else:
+                        _violation(rep, f"C04.read_optional.{fail[0]}", "mouette.mesh.load", fail[1], f"stl-{var}:{kinds}:{tag}",
+                                   {**small, **fail[2], "variant": var, "optional_construct": tag})
                 else:
                     rep.count("clean_read:stl")
+                    rep.flag(f"clean_read:stl:{var}")
             ctx.pending.append((path, later))
         return
     variants = list(range(K.N_VARIANTS[fmt]))
     if fmt == "off" and spec["E"] and not spec["F"]:
         variants.append("2gons")
+    plain_fails = set()            # failure keys of the variants that use no optional construct (either switch value)
     for var in variants:
+        opt = None if var == "2gons" else K.VARIANT_TAG[fmt][var]
         for C_on in (True, False):
             sw = {"id": "default"} if C_on else {"id": "C=0", "C": False}
             if var == "2gons":
@@ -930,7 +992,7 @@ def read_phase(ctx, spec, salt, fmt):
                     fail = ("class", "mismatch:class", {"got": got["cls"], "want": wcls})
             rep.outcome("read:" + fmt, fail[0] if fail else "same")
             if fail:
-                if var != "2gons":
+                if var != "2gons" and opt is None:
                     ctx.read_fail.add(fmt)
                 tag = ":2gons" if var == "2gons" else ""
                 kk = fail[0] if fail[0] in ("vertices", "edges") else kinds
@@ -940,14 +1002,32 @@ def read_phase(ctx, spec, salt, fmt):
                     kk = "edges"
                 icls = f"{fmt}:{kk}{tag}"
                 key = (fmt, "read", fail[0], fail[1], kk + tag)
-                if not C_on and key not in ctx.seen:
-                    icls += ":C=0"
-                elif C_on:
-                    ctx.seen.setdefault(key, icls)
-                _violation(rep, f"C04.read.{fail[0]}", "mouette.mesh.load", fail[1], icls,
-                              {**small, **fail[2], "variant": var, "switches": sw, "file": text[:1500]})
+                detail = {**small, **fail[2], "variant": var, "switches": sw, "file": text[:1500]}
+                if opt is None:
+                    plain_fails.add(key)
+                    if not C_on and key not in ctx.seen:
+                        icls += ":C=0"
+                    elif C_on:
+                        ctx.seen.setdefault(key, icls)
+                    _violation(rep, f"C04.read.{fail[0]}", "mouette.mesh.load", fail[1], icls, detail)
+                elif key in plain_fails:
+                    # the same mesh already fails alike without the optional construct: same defect, reported there
+                    rep.count("read_optional_same_as_plain")
+                else:
+                    # only a failure that NEEDS the optional construct is reported under the construct's name
+                    okey = key + (opt,)
+                    icls += ":" + opt
+                    if not C_on and okey not in ctx.seen:
+                        icls += ":C=0"
+                    elif C_on:
+                        ctx.seen.setdefault(okey, icls)
+                    _violation(rep, f"C04.read_optional.{fail[0]}", "mouette.mesh.load", fail[1], icls,
+                               {**detail, "optional_construct": opt})
             else:
                 rep.count("clean_read:" + fmt)
+                if opt is not None:
+                    rep.flag(f"clean_read:{fmt}:{opt}")
+                    rep.count("clean_read_optional")
 
 
 # ================================================================================================ dim override
@@ -1092,6 +1172,270 @@ def run_dim(task, rep, tmp):
         else:
             for fmt in sorted(bad):
                 rep.violation(f"C04.dim.{clause}", "mouette.mesh.load", kind, f"{rel}:{fmt}", bad[fmt])
+
+
+# ================================================================================================ second generation
+CONTAINER_SIZES = {"vertices": lambda s: len(s["V"]), "edges": lambda s: len(s["E"]), "faces": lambda s: len(s["F"]),
+                   "face_corners": lambda s: sum(len(f) for f in s["F"]), "cells": lambda s: len(s["C"]),
+                   "cell_corners": lambda s: sum(len(c) for c in s["C"]),
+                   "cell_faces": lambda s: sum(4 if len(c) == 4 else 6 for c in s["C"])}
+
+
+def regen_vectors(fmt):
+    return [{"id": "default"}, {"id": "C=0", "C": False}] + ([{"id": "X=0", "X": False}] if fmt == "obj" else [])
+
+
+def _attr_dump(raw, snap):
+    """every attribute of a RawMeshData as plain values: {"container|name": {"type", "arity", "values"}}"""
+    import numpy as np
+    out = {}
+    for cname, size in CONTAINER_SIZES.items():
+        cont = getattr(raw, cname, None)
+        if cont is None:
+            continue
+        for name in sorted(cont.attributes):
+            a = cont.get_attribute(name)
+            vals = []
+            for i in range(size(snap)):
+                v = a[i]
+                row = list(v) if isinstance(v, (list, tuple, np.ndarray)) else [v]
+                vals.append([(x.item() if isinstance(x, np.generic) else x) for x in row])
+            vals = [[(x.hex() if isinstance(x, float) else x if isinstance(x, (bool, int, str)) else repr(x)) for x in row] for row in vals]
+            out[f"{cname}|{name}"] = {"type": a.type.name, "arity": int(a.elemsize), "values": vals}
+    return out
+
+
+def _attr_class(key):
+    from mc import c04_codecs as K
+    return "attr=adjacency" if key in K.GEO_BUILTIN_ATTRS else "attr=user"
+
+
+def _regen_report(ctx, clause, callee, kind, fmt, kinds, sw, detail, extra=""):
+    """one fingerprint per (clause, format, element kinds); a failure that needs a switch deviation carries it"""
+    if clause in ("vertices", "edges"):
+        kinds = clause
+    key = (fmt, "regen", clause, kind, kinds + extra)
+    icls = f"{fmt}:{kinds}{extra}"
+    if sw["id"] == "default" or key in ctx.seen:
+        ctx.seen.setdefault(key, icls)
+        icls = ctx.seen[key]
+    else:
+        icls += ":" + sw["id"]
+    _violation(ctx.rep, f"C04.regen.{clause}", callee, kind, icls, detail)
+
+
+def _stl_regen_many(M, jobs, rep):
+    """for every (p1, p2): load p1, save the LOADED mesh to p2, load p2 - all of it in sacrificial children.
+    -> list of dicts {"stage": "done" | "load1" | "save2" | "nofile2" | "load2" | "crash", ...} aligned with jobs"""
+    def one(k):
+        p1, p2 = jobs[k]
+        o = call(M.mesh.load, p1)
+        if not o.ok:
+            return {"stage": "load1", "exc": o.exc, "msg": o.msg}
+        s1 = snapshot(o.value)
+        o2 = call(M.mesh.save, o.value, p2)
+        if not o2.ok:
+            return {"stage": "save2", "s1": s1, "exc": o2.exc, "msg": o2.msg}
+        if not os.path.exists(p2):
+            return {"stage": "nofile2", "s1": s1}
+        o3 = call(_load_snap, M, p2)
+        if not o3.ok:
+            return {"stage": "load2", "s1": s1, "exc": o3.exc, "msg": o3.msg}
+        return {"stage": "done", "s1": s1, "s2": o3.value}
+
+    todo = list(range(len(jobs)))
+    res = {}
+    while todo:
+        done, death = _child_stream(todo, one)
+        rep.count("stl_children_forked")
+        for k, v in zip(todo, done):
+            res[k] = v
+        if len(done) < len(todo):
+            res[todo[len(done)]] = {"stage": "crash", "child": death or "child ended early"}
+            todo = todo[len(done) + 1:]
+        else:
+            todo = []
+    return [res[k] for k in range(len(jobs))]
+
+
+def run_regen(task, rep, tmp):
+    """save -> load -> save -> load: the mesh m1 = load(save(m)) is a mesh like any other, so saving IT must again give
+    a file that means m1 to the independent reader (and that still carries every attribute the independent reader saw
+    in the generation-1 file), and loading that file must give m1 back. Judged only when generation 1 passed every
+    clause (its failures belong to the write / roundtrip clauses)."""
+    import mouette as M
+    from mc import c04_codecs as K
+    specs = family("sel", task["tier"])
+    fmt = task["fmt"]
+    stl = fmt == "stl"
+    stl_jobs = []
+    for k in range(task["lo"], task["hi"]):
+        spec = specs[k]
+        ctx = _Ctx(M, rep, tmp, tag="g" + str(k), mode="regen")
+        V = _vertices_of(spec, k, stl)
+        for sw in regen_vectors(fmt):
+            rep.states += 1; rep.traces += 1
+            with switches(M, sw):
+                mesh = _build(M, spec, V)
+                snap0 = snapshot(mesh)
+                exp1 = expectation(snap0, spec, fmt, sw)
+                kinds = _kinds(snap0)
+                p1, p2 = ctx.path(fmt), ctx.path(fmt)
+                small = {"mesh": spec["name"], "V": V if len(V) <= 12 else f"{len(V)} vertices", "E": spec["E"], "F": spec["F"],
+                         "C": spec["C"], "format": fmt, "switches": sw,
+                         "history": "m1 = load(save(m)); save(m1, file2); load(file2)"}
+                o = call(M.mesh.save, mesh, p1)
+                rep.transitions += 1
+                if not o.ok or not os.path.exists(p1):
+                    rep.count("regen_gen1_not_written")
+                    continue
+                if stl:
+                    stl_jobs.append((p1, p2, exp1, kinds, sw, small, ctx))
+                    continue
+                with open(p1, "r", newline="") as f:
+                    text1 = f.read()
+                ref1, wf1 = _judge_written(rep, fmt, text1, exp1)
+                rf1, got1 = (None, None) if wf1 else _judge_reloaded(M, rep, p1, exp1)
+                if wf1 or rf1:
+                    rep.count("regen_gen1_not_clean")      # reported by the write / roundtrip clauses
+                    continue
+                o1 = call(M.mesh.load, p1)
+                if not o1.ok:
+                    rep.count("regen_gen1_not_clean")
+                    continue
+                m1 = o1.value
+                snap1 = snapshot(m1)
+                # m1's declared edges are the ones the independent reader sees in the generation-1 file
+                exp2 = expectation(snap1, {"E": ref1["E"]}, fmt, sw)
+                rep.case((spec["name"], fmt, sw["id"], "second-generation"))
+                rep.count("regen_cases")
+                small = {**small, "m1": {"class": snap1["cls"], "E": snap1["E"][:24], "F": snap1["F"][:24], "C": snap1["C"][:24]},
+                         "file1": text1[:1200]}
+                o2 = call(M.mesh.save, m1, p2)
+                rep.transitions += 1
+                rep.outcome("regen.save:" + fmt, "ok" if o2.ok else o2.exc)
+                if not o2.ok or not os.path.exists(p2):
+                    _regen_report(ctx, "accepts", "mouette.mesh.save", exc_kind(o2) if not o2.ok else "mismatch:no_file_written",
+                                  fmt, kinds, sw, {**small, "msg": o2.msg})
+                    continue
+                with open(p2, "r", newline="") as f:
+                    text2 = f.read()
+                # ---- the generation-2 bytes for the independent reader
+                ref2, wf2 = _judge_written(rep, fmt, text2, exp2)
+                afail = None
+                if ref2 is not None and not wf2 and fmt == "geogram_ascii":
+                    for key in sorted(ref1["attrs"]):
+                        a1, a2 = ref1["attrs"][key], ref2["attrs"].get(key)
+                        rep.evaluations += 3
+                        if any(v != [K._NO_ID] for v in a1["values"]):
+                            rep.count("regen_file_attr_nontrivial")
+                        if a2 is None:
+                            afail = (key, "mismatch:attribute_missing", {"attribute": key, "file2_has": sorted(ref2["attrs"])[:8]})
+                        elif (a2["type"], a2["dim"]) != (a1["type"], a1["dim"]):
+                            afail = (key, "mismatch:attribute_type", {"attribute": key, "got": [a2["type"], a2["dim"]],
+                                                                       "want": [a1["type"], a1["dim"]]})
+                        elif a2["values"] != a1["values"]:
+                            afail = (key, "mismatch:attribute_values",
+                                     {"attribute": key, "file1_values": a1["values"][:24], "file2_values": a2["values"][:24],
+                                      **_first_diff(a2["values"], a1["values"])})
+                        if afail:
+                            break
+                rep.outcome("regen.write:" + fmt, "+".join(w[0] for w in wf2) if wf2 else "attributes" if afail else "same")
+                for w in wf2:
+                    _regen_report(ctx, w[0], "mouette.mesh.save", w[1], fmt, kinds, sw, {**small, **w[2], "file2": text2[:1500]})
+                if afail:
+                    _regen_report(ctx, "attributes", "mouette.mesh.save", afail[1], fmt, kinds, sw,
+                                  {**small, **afail[2], "file2": text2[-900:]}, extra=":" + _attr_class(afail[0]))
+                # ---- the reload of generation 2
+                rf2, got2 = _judge_reloaded(M, rep, p2, exp2)
+                bfail = None
+                if not rf2 and fmt == "geogram_ascii":
+                    r1, r2 = call(M.mesh.load, p1, raw=True), call(M.mesh.load, p2, raw=True)
+                    if r1.ok and r2.ok:
+                        d1, d2 = call(_attr_dump, r1.value, snap1), call(_attr_dump, r2.value, got2)
+                        if d1.ok and d2.ok:
+                            for key in sorted(d1.value):
+                                rep.evaluations += 3
+                                rep.count("regen_loaded_attr_compared")
+                                if d2.value.get(key) != d1.value[key]:
+                                    got = d2.value.get(key)
+                                    bfail = (key, "mismatch:attribute_missing" if got is None else "mismatch:attribute_values",
+                                             {"attribute": key, "loaded_from_file1": d1.value[key],
+                                              "loaded_from_file2": got, "file2_has": sorted(d2.value)})
+                                    break
+                        else:
+                            bad = d1 if not d1.ok else d2
+                            bfail = ("?", exc_kind(bad), {"msg": bad.msg, "while": "reading the attributes of the raw load"})
+                rep.outcome("regen.reload:" + fmt, rf2[0] if rf2 else "attributes" if bfail else "same")
+                if rf2 and not wf2:
+                    kk = _offender(kinds, "cells", got2["C"], exp2["C"], exp2["F"]) if rf2[0] == "cells" else kinds
+                    _regen_report(ctx, rf2[0], "mouette.mesh.load", rf2[1], fmt, kk, sw, {**small, **rf2[2], "file2": text2[:1500]})
+                if bfail and not wf2 and not afail:
+                    _regen_report(ctx, "attributes", "mouette.mesh.load", bfail[1], fmt, kinds, sw,
+                                  {**small, **bfail[2], "file2": text2[-900:]}, extra=":attr=loaded")
+                if not wf2 and not afail and not rf2 and not bfail:
+                    rep.count("regenclean:" + fmt)
+                    rep.flag(f"regenclean:{fmt}:{kinds}")
+        if not stl:
+            for fn in os.listdir(tmp):
+                os.unlink(os.path.join(tmp, fn))
+    if not stl_jobs:
+        return
+    results = _stl_regen_many(M, [(j[0], j[1]) for j in stl_jobs], rep)
+    for (p1, p2, exp1, kinds, sw, small, ctx), res in zip(stl_jobs, results):
+        V32 = [[K.f32(c) for c in p] for p in exp1["V"]]
+        want1 = list(_expected_soups(V32, exp1["F"]))
+        rep.transitions += 3
+        try:
+            with open(p1, "rb") as f:
+                soup_f1 = sorted(_rot_min(t) for t in K.parse_stl_binary(f.read()))
+        except K.RefParseError:
+            soup_f1 = None
+        soup1 = _soup_of_snapshot(res["s1"]) if "s1" in res else None
+        if soup_f1 not in want1 or soup1 is None or soup1 != soup_f1 or res["s1"]["cls"] != "SurfaceMesh":
+            rep.count("regen_gen1_not_clean")
+            continue
+        rep.case((small["mesh"], "stl", sw["id"], "second-generation"))
+        rep.count("regen_cases")
+        small = {**small, "triangles_of_m1": soup1[:6]}
+        rep.outcome("regen.save:stl", res["stage"] if res["stage"] in ("save2", "nofile2") else "ok")
+        if res["stage"] in ("save2", "nofile2"):
+            _regen_report(ctx, "accepts", "mouette.mesh.save", "raises:" + res["exc"] if res["stage"] == "save2" else
+                          "mismatch:no_file_written", "stl", kinds, sw, {**small, "msg": res.get("msg")})
+            continue
+        wf2 = None
+        if os.path.exists(p2):
+            try:
+                with open(p2, "rb") as f:
+                    soup_f2 = sorted(_rot_min(t) for t in K.parse_stl_binary(f.read()))
+                rep.evaluations += 1
+                if soup_f2 != soup1:
+                    wf2 = ("faces", "mismatch:triangle_soup", {"got": soup_f2[:6], "want": soup1[:6], "n_got": len(soup_f2),
+                                                               "n_want": len(soup1)})
+            except K.RefParseError as e:
+                wf2 = ("wellformed", "mismatch:malformed_file", {"reference_reader": str(e)})
+        rep.outcome("regen.write:stl", wf2[0] if wf2 else "same")
+        if wf2:
+            _regen_report(ctx, wf2[0], "mouette.mesh.save", wf2[1], "stl", kinds, sw, {**small, **wf2[2]})
+        rf2 = None
+        if res["stage"] == "crash":
+            rf2 = ("loads", "crash", {"child": res["child"], "note": "the child died somewhere in load(file1) / save / load(file2)"})
+        elif res["stage"] == "load2":
+            rf2 = ("loads", "raises:" + res["exc"], {"msg": res["msg"]})
+        else:
+            soup2 = _soup_of_snapshot(res["s2"])
+            rep.evaluations += 2
+            if soup2 is None or soup2 != soup1:
+                rf2 = ("faces", "mismatch:triangle_soup", {"got": (soup2 or res["s2"]["F"])[:6], "want": soup1[:6],
+                                                           "n_got": len(res["s2"]["F"]), "n_want": len(soup1)})
+            elif res["s2"]["cls"] != "SurfaceMesh":
+                rf2 = ("class", "mismatch:class", {"got": res["s2"]["cls"], "want": ["SurfaceMesh"]})
+        rep.outcome("regen.reload:stl", rf2[0] if rf2 else "same")
+        if rf2 and not wf2:
+            _regen_report(ctx, rf2[0], "mouette.mesh.load", rf2[1], "stl", kinds, sw, {**small, **rf2[2]})
+        if not wf2 and not rf2:
+            rep.count("regenclean:stl")
+            rep.flag(f"regenclean:stl:{kinds}")
 
 
 # ================================================================================================ attributes
@@ -1303,6 +1647,61 @@ def run_attr(task, rep, tmp):
                 rep.count("clean_attr")
                 rep.flag(f"clean_attr:{tname}")
                 rep.flag(f"clean_attr:{cname}")
+                # ---- second generation: the LOADED mesh is saved again; the independent reader must find the attribute
+                # in the new file exactly as it found it in the first one, and the reload must give the values back
+                p3 = ctx.path("geogram_ascii")
+                o3 = call(M.mesh.save, o.value, p3)
+                rep.transitions += 1
+                gclause = None
+                if not o3.ok:
+                    gclause = ("accepts", "mouette.mesh.save", exc_kind(o3), {"msg": o3.msg})
+                else:
+                    with open(p3, "r", newline="") as f:
+                        text3 = f.read()
+                    try:
+                        issues3 = []
+                        ref3 = K.parse_geogram(text3, issues3)
+                        mine = [m for sc, m in issues3 if sc == "attr:" + key or name in sc]
+                        r3 = ref3["attrs"].get(key)
+                        rep.evaluations += 3
+                        if mine:
+                            gclause = ("wellformed", "mouette.mesh.save", "mismatch:malformed_file", {"reference_reader": mine[:2]})
+                        elif r3 is None:
+                            gclause = ("attributes", "mouette.mesh.save", "mismatch:attribute_missing",
+                                       {"wanted": key, "present": sorted(ref3["attrs"])[:8]})
+                        elif (r3["type"], r3["dim"]) != (ra["type"], ra["dim"]):
+                            gclause = ("attributes", "mouette.mesh.save", "mismatch:attribute_type",
+                                       {"got": [r3["type"], r3["dim"]], "file1": [ra["type"], ra["dim"]]})
+                        elif r3["values"] != ra["values"]:
+                            gclause = ("attributes", "mouette.mesh.save", "mismatch:attribute_values",
+                                       _first_diff(r3["values"], ra["values"]))
+                    except K.RefParseError as e:
+                        gclause = ("wellformed", "mouette.mesh.save", "mismatch:malformed_file", {"reference_reader": str(e)})
+                    if gclause is None:
+                        o4 = call(M.mesh.load, p3)
+                        rep.transitions += 1
+                        if not o4.ok:
+                            gclause = ("loads", "mouette.mesh.load", exc_kind(o4), {"msg": o4.msg})
+                        elif not hasattr(o4.value, cname):
+                            gclause = ("attributes", "mouette.mesh.load", "mismatch:attribute_missing",
+                                       {"loaded_class": type(o4.value).__name__})
+                        else:
+                            prob, vals = _read_attr(getattr(o4.value, cname), name, tname, arity, size)
+                            rep.evaluations += 4
+                            if prob:
+                                gclause = ("attributes", "mouette.mesh.load", "mismatch:attribute_" + prob.split(":")[0], {"problem": prob})
+                            elif vals != wantn:
+                                gclause = ("attributes", "mouette.mesh.load", "mismatch:attribute_values", _first_diff(vals, wantn))
+                    if gclause:
+                        gclause[3]["file2"] = text3[-700:]
+                rep.outcome("regen:attr", gclause[2] if gclause else "same")
+                if gclause:
+                    fail(("regen", gclause[0], gclause[1], gclause[2]), triple,
+                         {**small, **gclause[3], "history": "m1 = load(save(m)); save(m1, file2); load(file2)"})
+                else:
+                    rep.count("clean_attr_regen")
+                    rep.flag(f"clean_attr_regen:{tname}")
+                    rep.flag(f"clean_attr_regen:{cname}")
             # ---- read: the independent writer (types the format defines: bool, int, double)
             if tname in ("bool", "int", "float") and not dense:
                 snap = snapshot(mesh)
@@ -1338,7 +1737,8 @@ def run_attr(task, rep, tmp):
         phase, clause, callee, kind = sig
         masked = set()                 # triples that never reached this clause: they failed earlier in another way
         for other, trip in failures.items():
-            if other != sig and (other[0] == phase or (phase == "roundtrip" and other[0] == "write")):
+            if other != sig and (other[0] == phase or (phase in ("roundtrip", "regen") and other[0] == "write")
+                                 or (phase == "regen" and other[0] == "roundtrip")):
                 masked |= set(trip)
         masked -= set(failures[sig])
         sub = [g for g in grid if g not in masked and (phase != "read" or g[0] in ("bool", "int", "float"))]
@@ -1375,6 +1775,9 @@ def run_task(task, rep: Report):
             if task["lo"] == 0:
                 rep.count("family:sel", len(family("sel", task["tier"])))
             run_dim(task, rep, tmp)
+            return
+        if task["kind"] == "regen":
+            run_regen(task, rep, tmp)
             return
         if task["kind"] == "ign":
             specs = family("sel", task["tier"])
@@ -1474,6 +1877,27 @@ def finish(tier, rep: Report):
                 fails.append(f"dim clause: no load with {rel} passed every clause for format {fmt}")
     if not rep.counters.get("dim_plain_ok"):
         fails.append("dim clause: no plain load was right")
+    # ---- optional constructs of the reference writer
+    from mc import c04_codecs as K
+    for fmt, tags in K.VARIANT_TAG.items():
+        for tag in tags:
+            if tag is not None and f"clean_read:{fmt}:{tag}" not in rep.flags:
+                fails.append(f"read_optional: no file with the optional construct {tag} loaded correctly for format {fmt}")
+    for var, _ in K.STL_VARIANTS:
+        if f"clean_read:stl:{var}" not in rep.flags:
+            fails.append(f"no reference-written STL of the variant {var} loaded correctly")
+    # ---- second generation
+    if not rep.counters.get("regen_cases"):
+        fails.append("regen clause: no second generation was run")
+    for fmt, kinds in REGEN_FLOOR.items():
+        for k in kinds:
+            if f"regenclean:{fmt}:{k}" not in rep.flags:
+                fails.append(f"regen clause: no {k} mesh passed the second generation for format {fmt}")
+    if not rep.counters.get("regen_file_attr_nontrivial") or not rep.counters.get("regen_loaded_attr_compared"):
+        fails.append("regen clause: no non-trivial attribute of a generation-1 file was compared with generation 2")
+    for t in ("bool", "int", "float"):
+        if f"clean_attr_regen:{t}" not in rep.flags:
+            fails.append(f"regen clause: no {t} attribute ever survived the second generation")
     # the clauses can PASS on every element kind the unchanged tree handles (a guard that needs no defect to hold)
     for fmt, kinds in CLEAN_FLOOR.items():
         for k in kinds:
